@@ -2,11 +2,20 @@
 // Copyright 2019 TiKV Project Authors. Licensed under Apache-2.0.
 
 use std::cell::RefCell;
+#[cfg(not(prometheus_verif_map))]
 use std::collections::HashMap;
+#[cfg(prometheus_verif_map)]
+use crate::verif_map::HashMap;
 use std::convert::From;
+#[cfg(not(prometheus_verif_sync))]
 use std::sync::{
     atomic::{AtomicU64 as StdAtomicU64, Ordering},
     Arc, Mutex,
+};
+#[cfg(prometheus_verif_sync)]
+use {
+    crate::verif_sync::{AtomicU64 as StdAtomicU64, Mutex, Ordering},
+    std::sync::Arc,
 };
 use std::time::{Duration, Instant as StdInstant};
 
